@@ -61,10 +61,12 @@ VARIABLES hist,     \* committed history (ZHistory)
           nextb,    \* next unused blob oid
           aborted,  \* ghost: tids of aborted transactions
           res,      \* outcome of the last call
-          obs,      \* derived: what every reader must see
+          osnap,    \* derived from (hist, files, packed): the bytes every snapshot reader must see
+          oiter,    \* derived from hist: what the storage's iterator must list
+          oview,    \* derived from (con, hist, files): the bytes c1 shows for the blobs it touched
           viol      \* derived: violations of C13 exhibited by this state
 
-vars == <<hist, files, old, dirty, leak, clk, packed, txn, con, nextb, aborted, res, obs, viol>>
+vars == <<hist, files, old, dirty, leak, clk, packed, txn, con, nextb, aborted, res, osnap, oiter, oview, viol>>
 View == <<hist, files, old, dirty, leak, clk, packed, txn, con, nextb, aborted>>
 
 P == 1
@@ -115,17 +117,16 @@ Touch(c) == IF IsClean(c) THEN [c EXCEPT !.snap = LastTid(hist)] ELSE c
 
 (* ------------------------- derived: observations ------------------------ *)
 ObsPoints == {t \in TidsOf(hist) : t >= 2 /\ t >= packed[1]} \cup (IF packed[1] >= 2 THEN {packed[1]} ELSE {})
-Known == {b \in Blobs : b < nextb}
+Known == {k[1] : k \in DOMAIN files} \cup (OidsOf(hist) \cap Blobs)
 SnapView(o, t) == LET r == LoadBefore(hist, o, t + 1)
                   IN IF r.k # "rev" THEN Absent ELSE IF o = P THEN r.d.v ELSE FileC(o, r.serial)
 TouchedViewable == IF txn.who = "c1" THEN {} ELSE {b \in con.touched : Viewable(con, b)}
 RecKind(H, r) == IF DataOfRec(H, r) = Gone THEN "zero" ELSE "data"
-ObsExpr ==
-  [snap  |-> [t \in ObsPoints |-> [o \in Known \cup {P} |-> SnapView(o, t)]],
-   cview |-> [b \in TouchedViewable |-> AView(con, b)],
-   iter  |-> [i \in 1..Len(hist) |->
-                [tid |-> hist[i].tid,
-                 recs |-> {<<hist[i].recs[j].oid, RecKind(hist, hist[i].recs[j])>> : j \in 1..Len(hist[i].recs)}]]]
+SnapExpr == [t \in ObsPoints |-> [o \in Known \cup {P} |-> SnapView(o, t)]]
+ViewExpr == [b \in TouchedViewable |-> AView(con, b)]
+IterExpr == [i \in 1..Len(hist) |->
+               [tid |-> hist[i].tid,
+                recs |-> {<<hist[i].recs[j].oid, RecKind(hist, hist[i].recs[j])>> : j \in 1..Len(hist[i].recs)}]]
 
 (* ------------------------- derived: the property ------------------------ *)
 BlobRevsOf(H) == {r \in {<<b, H[i].tid>> : b \in Blobs, i \in 1..Len(H)} :
@@ -140,13 +141,17 @@ ViolExpr ==
   \cup {V("bytes-differ-from-written") : k \in {k \in DOMAIN files : Committed(k) /\ files[k].c # files[k].w}}
   \cup {[inv |-> "CommittedFilesImmutable", kind |-> "committed-file-writable"] :
            k \in {k \in DOMAIN files : Committed(k) /\ ~files[k].ro}}
-Derived == obs' = ObsExpr' /\ viol' = ViolExpr'
+\* the derived variables are recomputed only by the actions that can change them (evaluating the tables for
+\* every successor state is what TLC spends its time on otherwise)
+Derived == osnap' = SnapExpr' /\ oiter' = IterExpr' /\ oview' = ViewExpr' /\ viol' = ViolExpr'
+DerivedCon == osnap' = osnap /\ oiter' = oiter /\ oview' = ViewExpr' /\ viol' = viol
+DerivedTxn == osnap' = osnap /\ oiter' = oiter /\ oview' = ViewExpr' /\ viol' = ViolExpr'
 
 Init ==
   /\ hist = <<Txn(1, <<DataRec(0, RootD({}))>>), Txn(2, <<DataRec(0, RootD({P})), DataRec(P, PlainD("v1"))>>)>>
   /\ files = <<>> /\ old = <<>> /\ dirty = {} /\ leak = <<>> /\ clk = 2 /\ packed = <<0, 0>>
   /\ txn = NoTxn /\ con = CleanCon(2) /\ nextb = 2 /\ aborted = {} /\ res = OK("open")
-  /\ obs = ObsExpr /\ viol = ViolExpr
+  /\ osnap = SnapExpr /\ oiter = IterExpr /\ oview = ViewExpr /\ viol = ViolExpr
 
 SameStore == UNCHANGED <<hist, files, old, dirty, leak, clk, packed, txn, aborted>>
 
@@ -159,7 +164,7 @@ CreateBlob(b, c0) ==
                       !.reg = AddReg(@, 0), !.touched = @ \cup {b}]
   /\ nextb' = b + 1
   /\ res' = OK("create")
-  /\ SameStore /\ Derived
+  /\ SameStore /\ DerivedCon
 
 \* an object that has an oid registers with the connection when it is changed
 Change(c, b, actual, ideal) ==
@@ -171,7 +176,7 @@ Rewrite(b, x) ==
   /\ Idle /\ b \in Blobs
   /\ LET c == Touch(con) IN Viewable(c, b) /\ con' = Change(c, b, <<x>>, <<x>>)
   /\ res' = OK("rewrite")
-  /\ UNCHANGED nextb /\ SameStore /\ Derived
+  /\ UNCHANGED nextb /\ SameStore /\ DerivedCon
 
 \* blob.open('a').write(x): the working copy starts as a copy of what the connection shows
 Append_(b, x) ==
@@ -181,14 +186,14 @@ Append_(b, x) ==
      /\ AView(c, b) \notin {Absent, Lost} /\ Len(AView(c, b)) < MaxLen /\ Len(IView(c, b)) < MaxLen
      /\ con' = Change(c, b, Append(AView(c, b), x), Append(IView(c, b), x))
   /\ res' = OK("append")
-  /\ UNCHANGED nextb /\ SameStore /\ Derived
+  /\ UNCHANGED nextb /\ SameStore /\ DerivedCon
 
 \* blob.consumeFile(path)
 ConsumeFile(b, x) ==
   /\ Idle /\ b \in Blobs
   /\ LET c == Touch(con) IN Viewable(c, b) /\ con' = Change(c, b, <<x>>, <<x>>)
   /\ res' = OK("consume")
-  /\ UNCHANGED nextb /\ SameStore /\ Derived
+  /\ UNCHANGED nextb /\ SameStore /\ DerivedCon
 
 ModifyP(v) ==
   /\ Idle /\ v \in PVals
@@ -196,7 +201,7 @@ ModifyP(v) ==
      /\ v # PViewOf(c)
      /\ con' = [c EXCEPT !.pval = <<v>>, !.reg = AddReg(@, P)]
   /\ res' = OK("modify")
-  /\ UNCHANGED nextb /\ SameStore /\ Derived
+  /\ UNCHANGED nextb /\ SameStore /\ DerivedCon
 
 (* ----------------------------- savepoints ------------------------------- *)
 \* Connection.savepoint -> _commit(None) into the TmpStore: records into its file, working copies of
@@ -216,7 +221,7 @@ Savepoint ==
      con' = [f EXCEPT !.sps = Append(@, [idx |-> f.spidx, new |-> f.spnew, pval |-> f.pval,
                                          ideal |-> f.ideal, file |-> f.spfile])]
   /\ res' = OK("savepoint")
-  /\ UNCHANGED nextb /\ SameStore /\ Derived
+  /\ UNCHANGED nextb /\ SameStore /\ DerivedCon
 
 \* Connection._rollback_savepoint: _abort() of what is registered, TmpStore.reset(position, index, creating);
 \* nothing is done about the savepoint blob files
@@ -228,14 +233,14 @@ Rollback(k) ==
                         !.spfile = IF SpbPerSerial THEN @ ELSE s.file,
                         !.sps = SubSeq(@, 1, k)]
   /\ res' = OK("rollback")
-  /\ UNCHANGED nextb /\ SameStore /\ Derived
+  /\ UNCHANGED nextb /\ SameStore /\ DerivedCon
 
 \* transaction.abort() outside two-phase commit
 AbortTxn ==
   /\ Idle /\ ~IsClean(con)
   /\ con' = CleanCon(LastTid(hist))
   /\ res' = OK("abort")
-  /\ UNCHANGED nextb /\ SameStore /\ Derived
+  /\ UNCHANGED nextb /\ SameStore /\ DerivedCon
 
 (* --------------------------- two-phase commit --------------------------- *)
 TpcBegin ==
@@ -243,7 +248,7 @@ TpcBegin ==
   /\ clk' = clk + 1
   /\ txn' = [who |-> "c1", tid |-> clk + 1, phase |-> "begun", staged |-> <<>>, target |-> 0]
   /\ res' = OK("tpc_begin")
-  /\ UNCHANGED <<hist, files, old, dirty, leak, packed, con, nextb, aborted>> /\ Derived
+  /\ UNCHANGED <<hist, files, old, dirty, leak, packed, con, nextb, aborted>> /\ DerivedTxn
 
 \* Connection.commit: without savepoints the registered objects in registration order, an object that becomes
 \* reachable right after its referrer; with savepoints first one more flush, then every oid of the TmpStore
@@ -293,7 +298,7 @@ Vote ==
   /\ txn.who # "none" /\ txn.phase = "stored"
   /\ txn' = [txn EXCEPT !.phase = "voted"]
   /\ res' = OK("tpc_vote")
-  /\ UNCHANGED <<hist, files, old, dirty, leak, clk, packed, con, nextb, aborted>> /\ Derived
+  /\ UNCHANGED <<hist, files, old, dirty, leak, clk, packed, con, nextb, aborted>> /\ DerivedTxn
 
 \* tpc_finish: the transaction joins the history, the dirty list is forgotten
 Finish ==
@@ -312,7 +317,7 @@ ConnAbort ==
   /\ txn' = [txn EXCEPT !.phase = "caborted"]
   /\ con' = IF txn.who = "c1" THEN [con EXCEPT !.work = <<>>, !.spfile = <<>>, !.spon = FALSE] ELSE con
   /\ res' = OK("abort")
-  /\ UNCHANGED <<hist, files, old, dirty, leak, clk, packed, nextb, aborted>> /\ Derived
+  /\ UNCHANGED <<hist, files, old, dirty, leak, clk, packed, nextb, aborted>> /\ DerivedTxn
 
 \* storage.tpc_abort: the files listed as dirty are removed - by FileStorage only if a vote happened (F4)
 TpcAbort ==
@@ -350,7 +355,7 @@ UBegin(t) ==
   /\ clk' = clk + 1
   /\ txn' = [who |-> "undo", tid |-> clk + 1, phase |-> "begun", staged |-> <<>>, target |-> t]
   /\ res' = OK("tpc_begin")
-  /\ UNCHANGED <<hist, files, old, dirty, leak, packed, con, nextb, aborted>> /\ Derived
+  /\ UNCHANGED <<hist, files, old, dirty, leak, packed, con, nextb, aborted>> /\ DerivedTxn
 
 \* tid of the record that physically holds the data reached from o's record in transaction i (_loadBackTxn)
 RECURSIVE HolderTid(_, _, _)
@@ -503,7 +508,7 @@ NoViolation == viol = {}
 UncommittedInvisible ==
   \A t \in ObsPoints : \A b \in Known :
      LET r == LoadBefore(hist, b, t + 1) IN r.k = "rev" => ~InFlight(<<b, r.serial>>)
-SnapshotsReadable == \A t \in ObsPoints : \A b \in Known : obs.snap[t][b] # Lost
+SnapshotsReadable == \A t \in ObsPoints : \A b \in Known : osnap[t][b] # Lost
 
 \* a committed file is never changed in place (content, permission bits)
 CommittedFilesImmutable ==
